@@ -199,6 +199,7 @@ class LWorld(H.World):
         self.stack = stack_cls(layers, reversed=False, props=props)
         self.stack.setProp(YowNetworkLayer.PROP_ENDPOINT, ("e1.whatsapp.net", 443))
         self.net = self.stack.getLayer(0)
+        self.seg = self.stack.getLayer(1)
         self.noise = self.stack.getLayer(2)
         self.app = self.stack.getLayer(len(layers) - 1)
         self.iq = None
@@ -415,6 +416,17 @@ def enabled(s, hist):
     return out
 
 
+def _layer_state(w):
+    """every plain-data attribute of the transport layers (network, segments, noise), whatever its name: histories are
+    merged only if these layers hold no state that tells them apart (a cached flag, a remembered length, ...)"""
+    from vf.explore.bfs import simple_state
+    out = []
+    for lay in (w.net, getattr(w, "seg", None), w.noise):
+        if lay is not None:
+            out.append(simple_state(lay, skip=("_disconnect_reason",)))
+    return tuple(out)
+
+
 def canon(s):
     w = s.w
     i = current(w)
@@ -423,7 +435,8 @@ def canon(s):
             ping_thread_alive(s), w.queue.qsize(), is_up(w), r.phase if r is not None else None,
             len(outstanding_pings(w, i)) if i >= 0 else 0,
             bool(i >= 0 and any(n.tag == "success" for n in w.sent_by_server[i])),
-            tuple(sorted((t.name, t.wait_desc) for t in s.sc.blocked())), s.error is not None, w.net_down)
+            tuple(sorted((t.name, t.wait_desc) for t in s.sc.blocked())), s.error is not None, w.net_down,
+            _layer_state(w))
 
 
 def check(s, hist, reconnect=True):
